@@ -73,28 +73,21 @@ func (r *Run) guardRejects(s sink) (exact bool, rejects bool, detail string) {
 			start = iff.Block().Succs[0]
 		}
 		// all returns reachable from start without passing through the If's block again must be failures
-		seen := map[*ssa.BasicBlock]bool{}
-		work := []*ssa.BasicBlock{start}
+		// (the walk honours tests of merged values: an error assigned on this edge and tested after a join — the
+		// shape an inlined helper leaves — is crossed only on its non-nil side)
 		okAll := true
 		n := 0
-		for len(work) > 0 {
-			b := work[len(work)-1]
-			work = work[:len(work)-1]
-			if seen[b] {
-				continue
-			}
-			seen[b] = true
+		visit := func(b *ssa.BasicBlock) bool {
 			if ret, isRet := b.Instrs[len(b.Instrs)-1].(*ssa.Return); isRet {
 				n++
 				if rets[ret] != core.RetFail {
 					okAll = false
 				}
-				continue
 			}
-			for _, sc := range b.Succs {
-				work = append(work, sc)
-			}
+			return false
 		}
+		visit(start)
+		ff.WalkFeasible([]*ssa.BasicBlock{iff.Block(), start}, nil, visit)
 		if okAll && n > 0 {
 			return exact, true, "the exceeding edge leads only to error returns"
 		}
@@ -159,16 +152,19 @@ func runC10(r *Run) {
 		}
 		r.R.Check(okGate, P+".size.gate", "E2 Before: json.Unmarshal of the request only under len(request) ≤ MaxOperationSize", core.FuncName(po), r.where(po),
 			"an oversized request must be rejected before it is parsed", fmt.Sprintf("%d unmarshal site(s) gated", len(calls)), "request bytes are decoded without the size gate")
-		d := r.dispatch(po, core.Ctx{}, "Operation")
+		d := r.dispatchSites(po, core.Ctx{}, "Operation")
 		for _, role := range opRoles {
 			ok := false
 			det := fmt.Sprintf("%d calls", len(d[role.Type]))
-			for _, c := range d[role.Type] {
-				key, _, _ := r.P.CalleeKey(c.Common())
-				if core.NameMatches(key, role.ParseOp) {
-					a := c.Common().Args
+			for _, ds := range d[role.Type] {
+				if core.NameMatches(ds.Key, role.ParseOp) {
+					a := ds.Args
 					ok = len(a) == 3 && a[1] == ssa.Value(po.Params[2]) && a[2] == ssa.Value(po.Params[3])
-					det = "-> " + key
+					det = "-> " + ds.Key
+				} else {
+					ok = false
+					det = "-> " + ds.Key
+					break
 				}
 			}
 			r.R.Check(ok, P+".dispatch.parse."+role.Type, "E7/E13: ParseOperation routes type to its parser with the same bytes and batch flag", core.FuncName(po)+" case "+role.Type, r.where(po),
